@@ -39,6 +39,7 @@ RULES = {
     "C13-T7": "program data that breaks off after a comma (`1,` / `'a',`) is distinguishable from absent program data: the unit must not be dispatched as if it had no parameters",
     "C13-T6": "parser level: scpiParser_parseProgramData / parseAllProgramData report exactly the number of bytes their recognisers consumed (white space included), on every path",
     "C13-T8": "after a sub-recogniser that can fail with the cursor moved reported failure, the caller restores the cursor on every path before it measures the token",
+    "C13-T10": "scpiParser_parseProgramData leaves the cursor behind the white space that follows the data: on every path the last recogniser it ran on the cursor is the white-space recogniser (the comma / terminator is expected right there)",
     "C13-T9": "compound header shape (488.2 7.6.1.2): the decision table of the header skipper over the outcomes of its colon and mnemonic helpers is [:] mnemonic (: mnemonic)*, a colon that no mnemonic follows is an INCOMPLETE header wherever it stands, and the helpers are consulted in that order",
     "C13-T4": "character classes of predicate helpers and of every advance guard equal the 488.2 classes (computed over all 256 byte values)",
 }
@@ -732,6 +733,41 @@ def rule_t6(ck, prog):
             ck.anchor_lost("C13-T6", "return of %s" % fname)
 
 
+def rule_t10(ck, prog):
+    f = prog.fn("scpiParser_parseProgramData")
+    if f is None:
+        ck.anchor_lost("C13-T10", "scpiParser_parseProgramData")
+        return
+    ck.analysed(f)
+    st = K.site(f, "trailing-white-space-consumed", 0)
+    cur = f.params[0]["name"]
+    try:
+        sums = P.summarize(f, max_visits=2)
+    except P.TooManyPaths:
+        ck.undecided("C13-T10", st, K.loc(f), "too many paths")
+        return
+    bad = None
+    n = 0
+    for ps in sums:
+        lex = [c for c in ps.calls if (c.get("callee") or "").startswith("scpiLex_") and C.call_args(c) and
+               C.call_args(c)[0].strip_all_casts().get("path") == cur]
+        data = [c for c in lex if c.get("callee") != "scpiLex_WhiteSpace"]
+        if not data:
+            continue
+        n += 1
+        if lex[-1].get("callee") != "scpiLex_WhiteSpace" and bad is None:
+            bad = (ps, lex[-1])
+    if bad:
+        ck.violated("C13-T10", st, K.loc(f, bad[0].ret_node if bad[0].ret_node is not None else bad[1]),
+                    "a path returns with %s as the last recogniser run on the cursor: white space between this program data and the "
+                    "comma / terminator that follows is left unread, so `1 V ,2 V` is cut at the blank (unit flagged invalid, or -103 "
+                    "from SCPI_Parameter)" % bad[1].get("callee"), {"path": bad[0].describe()[-5:]})
+    elif n == 0:
+        ck.anchor_lost("C13-T10", "scpiParser_parseProgramData: no path that runs a data recogniser on the cursor")
+    else:
+        ck.holds("C13-T10", st, K.loc(f), "%d paths, each ends with the white-space recogniser on `%s`" % (n, cur))
+
+
 def _compound_spec(colons, mnems):
     """(sign of the result, helper calls in order) for 488.2's [:] mnemonic (: mnemonic)* given the helpers' outcomes;
     None when the script is used up (beyond the bound)"""
@@ -857,6 +893,7 @@ def run(ck, fb, tier):
         rule_t6(ck, prog)
         rule_t7(ck, prog)
         rule_t9(ck, prog, tier)
+        rule_t10(ck, prog)
         rule_t5_detector(ck, prog, S)
     ck.trust("spec/char_classes.json (488.2 section 7 classes and the leniencies of src/scpi.g)",
              "<ctype.h> classifiers by their C-locale definition")
